@@ -149,6 +149,149 @@ def nt(case):
     return _paths(case['spec']) / max(1, len(case['spec'])) >= 4
 
 
+# --------------------------------------------------------------------------------------------------
+# TL parser: work bounded by the input length, not by a count/length field read from it
+
+TL_BIG = [0xffffffff, 0x7fffffff, 0x80000000, 0x10000, 0x1000000, 0x00fffffe, 0xfffffffe]
+
+
+def _tl_bytes(case):
+    from harness.props import c14
+    if 'raw' in case:
+        return bytes.fromhex(case['raw'])
+    info = c14.new_info()
+    ref, _ = c14.mat_obj(case['ctor'], case['v'], info)
+    pieces = [[k, b] for k, b in c14.SCH.pieces(case['ctor'], ref)]
+    cand = [i for i, (k, b) in enumerate(pieces) if k == 'vector-count' or k.endswith('-prefix') or k in ('nat', 'int')]
+    for sel, val in case['rewrite']:
+        if not cand:
+            break
+        i = cand[sel % len(cand)]
+        k, b = pieces[i]
+        if k.endswith('-prefix'):
+            pieces[i][1] = b'\xfe' + (val & 0xffffff).to_bytes(3, 'little') if val & 1 else bytes([val % 254])
+        else:
+            pieces[i][1] = (val & 0xffffffff).to_bytes(4, 'little')
+    data = b''.join(b for _, b in pieces)
+    cut = case.get('cut')
+    return data[:cut] if cut is not None else data
+
+
+def check_tl_bytes(case):
+    from harness.props import c14
+    g, schemas = c14._schemas()
+    data = _tl_bytes(case)
+    counted(lambda: schemas.deserialize(data), 150 * len(data) + 3000, 'tl-deserialize')
+    return None      # raising or returning are both fine here; only the bound matters
+
+
+def strat_tl(tier):
+    from harness.props import c14
+    with_counts = [n for n in c14.SUPPORTED if any(a.type[0] == 'vector' or a.type in (('prim', 'bytes'), ('prim', 'string'))
+                                                   for a in c14.SCH.ctor(n).args)]
+
+    @st.composite
+    def rewritten(draw):
+        name = draw(st.sampled_from(with_counts))
+        tree = c14.gen_obj(c14.HypChooser(draw), name, draw(st.sampled_from([1, 2, 3])), False, bit31=False)
+        rw = draw(st.lists(st.tuples(st.integers(0, 63), st.sampled_from(TL_BIG)).map(list), min_size=1, max_size=3))
+        return {'ctor': name, 'v': tree, 'rewrite': rw, 'cut': draw(st.one_of(st.none(), st.integers(4, 200)))}
+
+    ids = [c14.SCH.ctor(n).id_le.hex() for n in with_counts]
+    raw = st.builds(lambda i, body: {'raw': i + body.hex()}, st.sampled_from(ids),
+                    st.one_of(st.binary(max_size=64),
+                              st.lists(st.sampled_from([b'\xff\xff\xff\xff', b'\xfe\xff\xff\xff', b'\x00\x00\x00\x00', b'\xff\xff\xff\x7f',
+                                                        b'\x01\x00\x00\x00', b'\x00\x00\x01\x00']), max_size=24).map(b''.join)))
+    return st.one_of(rewritten(), rewritten(), raw)
+
+
+def classify_tl(case):
+    if 'raw' in case:
+        yield 'raw-after-ctor-id'
+    else:
+        yield 'rewritten-fields=%d' % len(case['rewrite'])
+        if case.get('cut') is not None:
+            yield 'truncated'
+
+
+# --------------------------------------------------------------------------------------------------
+# dictionary parser: work bounded by the unfolded size of the cell tree it is given
+
+def _dict_tree(case):
+    """reference cells of a binary cell tree of the given height; every node carries `label` bits (arbitrary - they are
+    read as a hashmap label, valid or not) and, unless it is a leaf, two references (the same child twice when shared)"""
+    nodes = []
+    for nd in case['nodes']:
+        refs = [nodes[i] for i in nd['r']]
+        nodes.append(rc.RCell(nd['b'], refs))
+    return nodes[-1]
+
+
+def _unfolded(case):
+    u = []
+    for nd in case['nodes']:
+        u.append(1 + sum(u[i] for i in nd['r']))
+    return u[-1]
+
+
+def check_dict_tree(case):
+    from pytoniq_core.boc.slice import Slice
+    from pytoniq_core.boc.hashmap.parse import parse_hashmap
+    from pytoniq_core.boc.hashmap import HashMap
+    root = _dict_tree(case)
+    u = _unfolded(case)
+    cell = dag.lib_from_rcell(root)
+    for f in (lambda: parse_hashmap(cell.begin_parse(), case['key_len']),
+              lambda: HashMap.parse(cell.begin_parse(), case['key_len']),
+              lambda: cell.begin_parse().load_hashmap_aug(case['key_len'], lambda s: s, lambda s: 0)
+              ):
+        counted(f, 120 * u + 400, 'dict-parse')
+    return None
+
+
+@st.composite
+def _st_dict_tree(draw):
+    n = draw(st.integers(1, 24))
+    nodes = []
+    bits = st.text('01', min_size=0, max_size=24)
+    for k in range(n):
+        if k == 0 or draw(st.integers(0, 5)) == 0:
+            r = []
+        else:
+            a = draw(st.integers(0, k - 1))
+            b = a if draw(st.booleans()) else draw(st.integers(0, k - 1))
+            r = [a, b]
+        # label bits: bias to "short label of length 0" (0 0), "same" (11 v n) and "long" (10 n ...) forms
+        lab = draw(st.sampled_from(['00', '0', '11', '10', ''])) + draw(bits)
+        nodes.append({'b': lab, 'r': r})
+    return {'nodes': nodes, 'key_len': draw(st.sampled_from([1, 2, 3, 8, 16, 32, 64, 256, 1023]))}
+
+
+def _cap_unfolded(case):
+    return _unfolded(case) <= 20000
+
+
+def strat_dict(tier):
+    return _st_dict_tree().filter(_cap_unfolded)
+
+
+def enum_dict_ladders(tier):
+    # valid dictionaries with maximal sharing: a ladder of height h is a full 2^h-entry map of key length h
+    for h in range(1, 13):
+        nodes = [{'b': '00' + '1' * 8, 'r': []}]            # leaf: hml_short of length 0, then an 8-bit value
+        for k in range(1, h + 1):
+            nodes.append({'b': '00', 'r': [k - 1, k - 1]})
+        yield {'nodes': nodes, 'key_len': h}
+        yield {'nodes': nodes, 'key_len': h + 5}             # label lengths that never add up: must still be bounded by u
+        yield {'nodes': nodes, 'key_len': max(1, h - 1)}
+
+
+def classify_dict(case):
+    u, n = _unfolded(case), len(case['nodes'])
+    yield 'unfolded/cells ' + ('=1' if u == n else '<4' if u < 4 * n else '>=4')
+    yield 'key_len=%d' % case['key_len']
+
+
 SUBCHECKS = [
     Sub('max-sharing-dags', check_dag, enum=enum_sharing, classify=classify, nontrivial=nt, shards=(16, 16), case_cpu_s=10,
         timeout_is_violation=True, note='doubling ladders (2 and 4 refs to the same child) and lattices, height 1..40, 60, 100, 200'),
@@ -156,4 +299,12 @@ SUBCHECKS = [
         timeout_is_violation=True),
     Sub('boc-parser-inflated-counts', check_boc_bytes, strategy=strat_boc_bytes, classify=classify, nontrivial=nt, n=(2000, 60000),
         shards=(8, 32), case_cpu_s=10, timeout_is_violation=True),
+    Sub('tl-parser-adversarial-counts', check_tl_bytes, strategy=strat_tl, classify=classify_tl, n=(3000, 100000), shards=(8, 32),
+        case_cpu_s=10, timeout_is_violation=True,
+        note='valid TL encodings (reference encoder) with vector counts / string length prefixes / flags rewritten to huge values, '
+             'optionally truncated; and constructor id + arbitrary words'),
+    Sub('dict-parser-ladders', check_dict_tree, enum=enum_dict_ladders, classify=classify_dict, shards=(4, 4), case_cpu_s=10,
+        timeout_is_violation=True, note='full 2^h-entry dictionaries as ladders h=1..12, with matching and non-matching key lengths'),
+    Sub('dict-parser-arbitrary-trees', check_dict_tree, strategy=strat_dict, classify=classify_dict, n=(1500, 40000), shards=(8, 32),
+        case_cpu_s=10, timeout_is_violation=True, note='arbitrary binary cell DAGs read as dictionaries (labels valid or not)'),
 ]
